@@ -139,6 +139,14 @@ def do_site(which, src, env_w=None):
             prog = parse("bz = Buzzer(8)\n" + pre + "bz.play_tone(" + src + ")\n")
             node = [n for n in prog.setup_body if type(n).__name__ == "BuzzerPlayTone"][-1]
             v = node.frequency
+        elif which == "model":
+            prog = parse(pre + "us = Ultrasonic(7, 8, model=" + src + ")\n")
+            node = [n for n in prog.setup_body if type(n).__name__ == "UltrasonicDecl"][-1]
+            return ["folded", enc(node.model)]
+        elif which == "pin":
+            prog = parse(pre + "l2 = Led(" + src + ")\n")
+            node = [n for n in prog.setup_body if type(n).__name__ == "LedDecl"][-1]
+            v = node.pin
         elif which == "glyph":
             prog = parse("lcd = LCD(rs=12, en=11, d4=5, d5=4, d6=3, d7=2)\n" + pre + "lcd.glyph(0, " + src + ")\n")
             node = [n for n in prog.setup_body if type(n).__name__ == "LCDGlyph"][-1]
@@ -168,22 +176,34 @@ def guard_py(tree, rt):
     return True
 
 
+def _entry(x):
+    return int(x) if isinstance(x, (int, float)) and not isinstance(x, bool) or isinstance(x, bool) else repr(x)
+
+
 def walk_ir(nodes, out):
     for n in nodes:
         t = type(n).__name__
         if t == "SerialWrite":
             v = str(n.value)
+            if "##handler" in v:
+                continue                 # the harness's own marker line at the head of every except block
             out.append(["len", int(v)] if v.isdigit() else ["rt", v])
         elif t == "LedFlashPattern":
-            out.append(["flash", [int(x) for x in n.pattern]])
+            # read when parsing is complete, like the emitter does: a node that shares its list with the constant
+            # environment shows the list's FINAL contents here (and possibly entries that are not numbers at all)
+            out.append(["flash", [_entry(x) for x in n.pattern]])
         elif t == "LCDGlyph":
-            out.append(["glyph", [int(x) for x in n.bitmap]])
+            out.append(["glyph", [_entry(x) for x in n.bitmap]])
         elif t == "IfStatement":
             for b in n.branches:
                 walk_ir(b.body, out)
             walk_ir(n.else_body, out)
         elif t in ("WhileLoop", "ForRangeLoop"):
             walk_ir(n.body, out)
+        elif t == "TryStatement":
+            walk_ir(n.try_body, out)
+            for h in n.handlers:
+                walk_ir(h.body, out)
 
 
 def do_prog(script):
